@@ -80,6 +80,21 @@ class CanaryCallable:
         return "<canary callable>"
 
 
+class CanaryDuck(CanaryCallable):
+    """for the documented helpers (not the field-type constructors, whose conversion logic may consult their argument): the helpers
+    are documented to look at text and records only, so ANY method they invoke on another value (gettypename, items, ...) is logged"""
+
+    def __getattr__(self, name):
+        if name.startswith("_"):
+            raise AttributeError(name)
+
+        def method(*a, **k):
+            LOG.append(f"CanaryDuck.{name}")
+            return True
+
+        return method
+
+
 def allowed_names():
     from flow.record.selector import FUNCTION_WHITELIST
 
@@ -189,11 +204,11 @@ def bad_shapes(depth, full_depth):
     return [s for s in shapes(depth, full_depth) if is_bad(s)]
 
 
-def make_record():
+def make_record(duck=False):
     from flow.record import RecordDescriptor
 
     D = RecordDescriptor("test/sandbox", [("string", "s"), ("varint", "n"), ("record", "c"), ("record", "f"), ("string[]", "tags")])
-    return D("abc", 1, CanaryStr("canary"), CanaryCallable(), ["Alpha", "BETA"], _generated=1)
+    return D("abc", 1, CanaryStr("canary"), CanaryDuck() if duck else CanaryCallable(), ["Alpha", "BETA"], _generated=1)
 
 
 def sandbox(depth: int, full: int, lo: int, hi: int):
@@ -245,6 +260,13 @@ def hostile_arguments():
     return out
 
 
+def _helper_callee(src):
+    """True iff every call in the expression targets a documented helper / builtin (no field-type constructor)"""
+    names = allowed_names()
+    calls = [n for n in ast.walk(ast.parse(src, mode="eval")) if isinstance(n, ast.Call)]
+    return bool(calls) and all(isinstance(c.func, ast.Name) and c.func.id in names for c in calls)
+
+
 def hostargs(lo: int, hi: int):
     """path-exhaustive: a symbolic index selects the expression; the selector object is shared by all paths (a reader's selector
     serves many records)"""
@@ -253,6 +275,7 @@ def hostargs(lo: int, hi: int):
 
     batch = hostile_arguments()[lo:hi]
     sels = [Selector(s) for s in batch]
+    ducks = [_helper_callee(s) for s in batch]
     n = len(batch)
 
     def check(i: int) -> bool:
@@ -262,11 +285,13 @@ def hostargs(lo: int, hi: int):
         if not (0 <= i < n):
             return True
         sel = None
+        duck = False
         for j in range(n):
             if i == j:
                 sel = sels[j]
+                duck = ducks[j]
         with NoTracing():
-            rec = make_record()
+            rec = make_record(duck)
             before = repr(rec._packdict())
             del LOG[:]
             try:
@@ -453,7 +478,7 @@ def replay(res):
         return {"reproduced": False, "what": "all shapes of the batch are refused"}
     if "hostargs" in gid:
         for src in hostile_arguments()[a["lo"] : a["hi"]]:
-            rec = make_record()
+            rec = make_record(_helper_callee(src))
             before = repr(rec._packdict())
             del LOG[:]
             try:
